@@ -24,7 +24,7 @@ ASSUMPTIONS = ['only index and value forms used by upstream tests/docstrings are
                'reads that leave every selected row non-empty',
                'row reads are views by design, so write-through is exercised on a row fetched after the last structural change',
                'values keep the dtype of the array (no float written into an integer array)']
-REACH_EXPECTED = ['op_rowslice_col', 'out_of_row_write_rejected', 'op_elem', 'op_row_same', 'op_row_newlen', 'op_introw_slice', 'op_slice2d', 'op_fancy', 'op_fancy_int', 'op_mask',
+REACH_EXPECTED = ['construct_from_2d_block', 'row_assign_wider_dtype', 'introw_general_slice', 'op_rowslice_col', 'out_of_row_write_rejected', 'op_elem', 'op_row_same', 'op_row_newlen', 'op_introw_slice', 'op_slice2d', 'op_fancy', 'op_fancy_int', 'op_mask',
                   'op_mask_empty', 'op_rowblock', 'op_append_rows', 'op_append_ra', 'op_aug_scalar', 'op_aug_ragged', 'op_binary',
                   'env_source_mutated', 'env_lengths_mutated', 'env_result_mutated', 'env_write_through', 'rect_to_ragged', 'ragged_to_rect', 'multidim_elements',
                   'out_of_row_rejected']
@@ -89,6 +89,20 @@ class Machine:
         form = t.draw(3)
         copy = not t.flag(1, 5)
         self.src = None
+        if equal and self.edim is None and t.flag(1, 3):
+            # the caller's rows are one rectangular 2-D array: building from it must copy, too
+            src2d = np.stack(rows)
+            a = self.sut(self.ra.RaggedArray, src2d)
+            src2d[...] = self.vals.take(src2d.shape)
+            self.ctx.hit('env_source_mutated')
+            self.ctx.hit('construct_from_2d_block')
+            desc = ('block2d', lens)
+            self.hist.append(desc)
+            self.a = a
+            self.rows = [r.copy() for r in rows]
+            self.ctx.scenario.update(construction=list(map(str, desc)), dtype=self.dtype, elem_dim=self.edim)
+            self.observe('after construction')
+            return
         if form == 0:
             as_lists = t.flag() and self.edim is None
             arg = [r.tolist() if as_lists else r.copy() for r in rows]
@@ -228,9 +242,20 @@ class Machine:
             i = t.draw(n)
             v = V.take((lens[i],) + es)
             form = t.draw(3) if self.edim is None else 0
+            if self.dtype == 'int64' and self.edim is None and t.flag(1, 6):
+                # values the integer array cannot hold: the row must come back as assigned (the array is promoted)
+                v = v.astype(np.float64) + 0.5
+                form = 0
+                self.ctx.hit('row_assign_wider_dtype')
             self.hist.append(('row_same', i, form))
             self.sut(a.__setitem__, i - n if t.flag(1, 4) else i, v.copy() if form == 0 else (v.tolist() if form == 1 else v))
             rows[i] = v.copy()
+            if v.dtype != np.dtype(self.dtype):
+                # the array has one element type: it is promoted as a whole and stays promoted
+                self.dtype = 'float64'
+                self.vals.dtype = np.dtype('float64')
+                for k2 in range(len(rows)):
+                    rows[k2] = rows[k2].astype(np.float64)
         elif op == 'row_newlen':
             i = t.draw(n)
             L = t.irange(1, 6)
@@ -240,15 +265,28 @@ class Machine:
             rows[i] = v.copy()
         elif op == 'introw_slice':
             i = t.draw(n)
-            lo = t.draw(lens[i])
-            hi = t.irange(lo + 1, lens[i])
-            stp = 1 if t.flag(3, 4) else 2
-            tgt = rows[i][lo:hi:stp]
+            L = lens[i]
+            if t.flag(1, 3):
+                # any slice numpy accepts on the row: negative starts / stops / steps, open ends
+                start = t.choice((None, -L, -(1 + t.draw(L)), t.draw(L)))
+                stop = t.choice((None, None, -(1 + t.draw(L)), t.draw(L + 1)))
+                stp = t.choice((None, 1, 2, -1, -2))
+                sl = slice(start, stop, stp)
+                if len(rows[i][sl]) == 0:
+                    sl = slice(None, None, stp)
+                self.ctx.hit('introw_general_slice')
+            else:
+                lo = t.draw(L)
+                hi = t.irange(lo + 1, L)
+                stp = 1 if t.flag(3, 4) else 2
+                sl = slice(lo, hi, stp) if stp != 1 else slice(lo, hi)
+            tgt = rows[i][sl]
             scalar = t.flag(1, 3)
             v = V.take(()) if scalar else V.take(tgt.shape)
-            self.hist.append(('introw_slice', i, lo, hi, stp, scalar))
-            self.sut(a.__setitem__, (i, slice(lo, hi, stp) if stp != 1 else slice(lo, hi)), v)
-            rows[i][lo:hi:stp] = v
+            ii = i - n if t.flag(1, 4) else i
+            self.hist.append(('introw_slice', ii, str(sl), scalar))
+            self.sut(a.__setitem__, (ii, sl), v)
+            rows[i][sl] = v
         elif op == 'slice2d':
             r0 = t.draw(n)
             r1 = t.irange(r0 + 1, n)
